@@ -114,12 +114,14 @@ def run(ctx):
     strings = ["".join(t) for n in range(0, maxlen + 1) for t in itertools.product(alph, repeat=n)]
     lines = []
     exp = []
-    pollute.preparse(P, look, strings)
     sub = type("FreshSub2", (P.Rule,), {})
     # "as seen from any grammar": also a grammar class derived from another grammar class (which defines rules of its own)
     mid = type("MidGrammar", (P.Rule,), {})
     mid.create('own = "x" DIGIT')
     subsub = type("SubSub", (mid,), {})
+    # the look-alike grammar parses the same inputs first - AFTER the last definition above (defining a rule drops every cached
+    # result, and with it whatever a shared or mis-keyed cache would have leaked)
+    pollute.preparse(P, look, strings)
     for name in CORE:
         for cls in (P.Rule, sub, subsub):
             rule = cls(name)
